@@ -44,6 +44,10 @@ class Pattern(Serialize, ABC):
         self.flags = frozenset(flags)
         self.raw = raw
 
+    def _deserialize(self):
+        # Serialization turns the frozenset into a list
+        self.flags = frozenset(self.flags)
+
     def __repr__(self):
         return repr(self.to_regexp())
 
